@@ -9,6 +9,7 @@ import (
 	"time"
 
 	"github.com/google/uuid"
+	"go.dedis.ch/kyber/v3"
 	"go.dedis.ch/kyber/v3/util/key"
 	"go.dedis.ch/onet/v3"
 	"go.dedis.ch/onet/v3/log"
@@ -31,6 +32,8 @@ import (
 //   msg <key> <m>           the oldest live router of that peer sends m over its existing connection
 //   dial <ident>            the server sends to a new bare router of that peer (opens the connection)
 //   drop <key>              all routers of that peer are stopped
+//   sethold <setid> <idents> SetValidPeers is started and held while it derives the id of the identity
+//                           marked `!` (a public key whose String() waits for a gate); release lets it finish
 
 // C17Msg is the payload sent by peers.
 type C17Msg struct{ M int64 }
@@ -63,6 +66,30 @@ func c17Register() {
 	})
 }
 
+// c17gatedPoint is a public key whose textual form — what ServerIdentity.GetID derives the id
+// from — is only available once the gate is opened: a SetValidPeers call given such an identity
+// is held in the middle of its work, deterministically.
+type c17gatedPoint struct {
+	kyber.Point
+	once    sync.Once
+	entered chan struct{}
+	release chan struct{}
+}
+
+func (g *c17gatedPoint) String() string {
+	g.once.Do(func() { close(g.entered) })
+	<-g.release
+	return g.Point.String()
+}
+
+// c17pending is a SetValidPeers call that has been started and is held.
+type c17pending struct {
+	key     string
+	members map[int]bool
+	gate    *c17gatedPoint
+	done    chan struct{}
+}
+
 type c17inst struct {
 	key    int
 	r      *network.Router
@@ -71,21 +98,22 @@ type c17inst struct {
 }
 
 type c17world struct {
-	cs     *h.Case
-	tcp    bool
-	lt     *onet.LocalTest
-	srv    *onet.Server
-	keys   map[int]*key.Pair
-	byPub  map[string]int
-	byID   map[network.ServerIdentityID]int
-	insts  []*c17inst
-	port   int
-	disp   chan string
+	cs    *h.Case
+	tcp   bool
+	lt    *onet.LocalTest
+	srv   *onet.Server
+	keys  map[int]*key.Pair
+	byPub map[string]int
+	byID  map[network.ServerIdentityID]int
+	insts []*c17inst
+	port  int
+	disp  chan string
 	// the property's own reference: a map of sets of keys
 	// keyed by the set as the history names it (router-level ids normalised to their 32 bytes,
 	// context-level ids by service and bytes): two services that use the same bytes name two sets
 	ref     map[string]map[int]bool
 	refInit bool
+	pend    *c17pending
 }
 
 func (w *c17world) keyOf(k int) *key.Pair {
@@ -108,7 +136,7 @@ func (w *c17world) idOf(k int) network.ServerIdentityID {
 }
 
 func c17parseIdent(s string) (k, f int, ok bool) {
-	p := strings.Split(s, ":")
+	p := strings.Split(strings.TrimSuffix(s, "!"), ":")
 	k, err := strconv.Atoi(p[0])
 	if err != nil || k < 1 || len(p) > 2 {
 		return 0, 0, false
@@ -152,6 +180,7 @@ func (w *c17world) open(tr string) string {
 }
 
 func (w *c17world) close() {
+	w.releasePending()
 	for _, in := range w.insts {
 		w.stopInst(in)
 	}
@@ -261,6 +290,41 @@ func (w *c17world) refValid(k int) bool {
 	return false
 }
 
+// refValidAfter is refValid once the held call has taken effect.
+func (w *c17world) refValidAfter(k int) bool {
+	if w.pend == nil {
+		return w.refValid(k)
+	}
+	old, had := w.ref[w.pend.key]
+	oldInit := w.refInit
+	w.ref[w.pend.key], w.refInit = w.pend.members, true
+	v := w.refValid(k)
+	if had {
+		w.ref[w.pend.key] = old
+	} else {
+		delete(w.ref, w.pend.key)
+	}
+	w.refInit = oldInit
+	return v
+}
+
+func (w *c17world) releasePending() bool {
+	p := w.pend
+	if p == nil {
+		return true
+	}
+	close(p.gate.release)
+	ok := true
+	select {
+	case <-p.done:
+	case <-time.After(5 * time.Second):
+		ok = false
+	}
+	w.ref[p.key], w.refInit = p.members, true
+	w.pend = nil
+	return ok
+}
+
 // await waits for the dispatch of (k, m) at the server or for the close of the peer's
 // connection, whichever comes first.
 func (w *c17world) await(in *c17inst, k int, m int64) string {
@@ -327,6 +391,52 @@ func c17exec(c *h.Ctx, cs *h.Case) {
 				obs = "ok"
 				tags[fmt.Sprintf("set:%d", c03bucketN(len(members)))] = true
 			}
+		case len(tk) == 4 && tk[1] == "sethold" && w.pend == nil:
+			id, ctx, ok := w.setID(tk[2])
+			var peers []*network.ServerIdentity
+			pd := &c17pending{key: c17refKey(tk[2]), members: map[int]bool{}, done: make(chan struct{})}
+			for _, s := range strings.Split(tk[3], ",") {
+				k, f, ok2 := c17parseIdent(s)
+				ok = ok && ok2
+				if !ok2 {
+					continue
+				}
+				pd.members[k] = true
+				if strings.HasSuffix(s, "!") && pd.gate == nil {
+					pd.gate = &c17gatedPoint{Point: w.keyOf(k).Public, entered: make(chan struct{}), release: make(chan struct{})}
+					// built by hand: NewServerIdentity would already ask for the id
+					peers = append(peers, &network.ServerIdentity{Public: pd.gate, ID: w.idOf(f), Address: network.NewTCPAddress("127.0.0.1:1")})
+				} else {
+					peers = append(peers, w.ident(k, f, network.NewTCPAddress("127.0.0.1:1")))
+				}
+			}
+			if ok && pd.gate != nil {
+				go func() {
+					if ctx != nil {
+						ctx.SetValidPeers(id, peers)
+					} else {
+						w.srv.SetValidPeers(id, peers)
+					}
+					close(pd.done)
+				}()
+				select {
+				case <-pd.gate.entered:
+					obs = "held"
+				case <-pd.done:
+					obs = "returned-without-asking-for-the-id"
+				case <-time.After(3 * time.Second):
+					obs = "not-held"
+				}
+				w.pend = pd
+				tags["sethold"] = true
+			}
+		case len(tk) == 2 && tk[1] == "release" && w.pend != nil:
+			if w.releasePending() {
+				obs = "ok"
+			} else {
+				obs = "hang"
+				cs.Fail("hang", "the held SetValidPeers call did not return within 5 s after its identity became available")
+			}
 		case len(tk) == 3 && tk[1] == "get":
 			id, ctx, ok := w.setID(tk[2])
 			if ok {
@@ -359,11 +469,27 @@ func c17exec(c *h.Ctx, cs *h.Case) {
 						want = append(want, k)
 					}
 					sort.Ints(want)
-					if !w.refInit || unknown || h.Ints(want) != h.Ints(ks) {
+					if w.pend != nil {
+						// a call is in progress: what is read is the table before it or after it
+						var after []int
+						src := w.ref[c17refKey(tk[2])]
+						if w.pend.key == c17refKey(tk[2]) {
+							src = w.pend.members
+						}
+						for k := range src {
+							after = append(after, k)
+						}
+						sort.Ints(after)
+						okBefore := w.refInit && !unknown && h.Ints(want) == h.Ints(ks)
+						okAfter := !unknown && h.Ints(after) == h.Ints(ks)
+						if !okBefore && !okAfter {
+							cs.Fail("set-not-atomic", fmt.Sprintf("while SetValidPeers(%s) is in progress, set %s reads as %s: neither the table before the call (%s) nor after it (set:%s)", w.pend.key, tk[2], obs, c17before(w.refInit, want), h.Ints(after)))
+						}
+					} else if !w.refInit || unknown || h.Ints(want) != h.Ints(ks) {
 						cs.Fail("get-mismatch", fmt.Sprintf("set %s holds the keys %v, reading it back gives %s", tk[2], want, obs))
 					}
 				}
-				if got == nil && w.refInit {
+				if got == nil && w.refInit && w.pend == nil {
 					cs.Fail("get-mismatch", "reading a set back gives nil although sets were given")
 				}
 				tags["get:"+strings.SplitN(obs, ":", 2)[0]] = true
@@ -388,7 +514,12 @@ func c17exec(c *h.Ctx, cs *h.Case) {
 				if f != k {
 					kind = "forged"
 				}
+				validAfter := w.refValidAfter(k)
 				switch {
+				case w.pend != nil && valid != validAfter:
+					// either answer is that of some order of the two calls
+				case w.pend != nil && valid && !strings.HasPrefix(obs, "dispatched"):
+					cs.Fail("set-not-atomic", fmt.Sprintf("peer %d is valid before SetValidPeers(%s) and valid after it; offering a connection while the call is in progress it got %q", k, w.pend.key, obs))
 				case valid && !strings.HasPrefix(obs, "dispatched") || valid && strings.HasSuffix(obs, "+closed"):
 					cs.Fail("member-refused", fmt.Sprintf("peer %d is valid by its key (or no set was given yet) and got %q", k, obs))
 				case !valid && strings.HasPrefix(obs, "dispatched") && f != k:
@@ -469,6 +600,13 @@ func c17exec(c *h.Ctx, cs *h.Case) {
 	cs.Outcome = tr + " " + strings.Join(tl, " ")
 }
 
+func c17before(init bool, want []int) string {
+	if !init {
+		return "nil"
+	}
+	return "set:" + h.Ints(want)
+}
+
 func c03bucketN(n int) int {
 	if n > 2 {
 		return 3
@@ -525,6 +663,15 @@ func c17gen(c *h.Ctx, yield func(*h.Case)) {
 			"c17 set c2/"+long+" -",
 			"c17 offer 1 5", "c17 offer 2 6",
 			"c17 get r"+long, "c17 get r"+long+"01")
+		// a connection attempt and a read while the very first SetValidPeers is in progress: the
+		// table is the one before the call (nil, everybody valid) or the one after it
+		emit("corpus-first-set-in-progress",
+			"c17 open "+tr,
+			"c17 get r01",
+			"c17 sethold r01 1,5!",
+			"c17 offer 1 1", "c17 get r01", "c17 get r02", "c17 offer 5 2",
+			"c17 release",
+			"c17 get r01", "c17 offer 2 3", "c17 offer 1 4", "c17 msg 1 5")
 		emit("corpus-not-retroactive-and-dial",
 			"c17 open "+tr,
 			"c17 set r01 1",
@@ -619,6 +766,55 @@ func c17gen(c *h.Ctx, yield func(*h.Case)) {
 			}
 		}
 		emit("history-"+tr, ops...)
+	}
+	// ---- histories with a SetValidPeers call held in the middle (first call or a replacement),
+	// offers and reads in between
+	for i := 0; i < c.Pick(60, 1200); i++ {
+		tr := "local"
+		if r.Intn(2) == 0 {
+			tr = "tcp"
+		}
+		np := 4 + r.Intn(3)
+		sets := []string{"r01", "c1/02", "c2/02", "r03"}
+		members := func() string {
+			var ps []string
+			for k := 1; k <= np; k++ {
+				if r.Intn(2) == 0 {
+					ps = append(ps, strconv.Itoa(k))
+				}
+			}
+			return strings.Join(ps, ",")
+		}
+		ops := []string{"c17 open " + tr}
+		msg := 0
+		for j := r.Intn(3); j > 0; j-- { // sometimes the held call is the very first one
+			l := members()
+			if l == "" {
+				l = "-"
+			}
+			ops = append(ops, fmt.Sprintf("c17 set %s %s", sets[r.Intn(len(sets))], l))
+		}
+		held := sets[r.Intn(len(sets))]
+		l := members()
+		gated := fmt.Sprintf("%d!", np+1)
+		if l != "" {
+			gated = l + "," + gated
+		}
+		ops = append(ops, fmt.Sprintf("c17 sethold %s %s", held, gated))
+		for j := 2 + r.Intn(5); j > 0; j-- {
+			msg++
+			if r.Intn(3) == 0 {
+				ops = append(ops, "c17 get "+sets[r.Intn(len(sets))])
+			} else {
+				ops = append(ops, fmt.Sprintf("c17 offer %d %d", 1+r.Intn(np+1), msg))
+			}
+		}
+		ops = append(ops, "c17 release", "c17 get "+held)
+		for j := 1 + r.Intn(3); j > 0; j-- {
+			msg++
+			ops = append(ops, fmt.Sprintf("c17 offer %d %d", 1+r.Intn(np+1), msg))
+		}
+		emit("hold-"+tr, ops...)
 	}
 }
 
